@@ -73,11 +73,19 @@ def harnesses(tier):
     UNI = ["core::unicode::unicode_data::{alphabetic,n}::lookup -> arbitrary bool above U+007F (over-approximation of the Unicode tables)"]
     # the 37-entry operator table is scanned by Iterator::find
     OPTABLE = (r"token::Operator\)> as std::iter::Iterator>::try_fold", 39)
-    def text_h(name, ws, what):
+    ASCII = list(range(0, 128))
+    CANDS = {"1": ASCII,
+             "2": [0xE9, 0xD7, 0xA0, 0x85, 0xAD, 0xB5, 0xDF, 0x3A9, 0x44F, 0x663, 0x5D0, 0x7FF],
+             "3": [0x3042, 0x20AC, 0x3000, 0x2003, 0x2028, 0x0E53, 0x4E2D, 0x800, 0xFFFD, 0xFEFF],
+             "4": [0x1F600, 0x1D7D9, 0x10400, 0x10000, 0x10FFFF]}
+
+    def text_h(name, ws, what, fixed_first=False):
+        sym = ws[1:] if fixed_first else ws
         return Harness(name, what, FT,
                        "tokenizer total (no panic, progress, ranges on character boundaries inside the text), token kind "
                        "determined by the first character, operators by longest match", timeout=1500, mem_gb=12, mod=MT,
-                       stubs=UNI, cover_group="c03_text", cbmc_unwind=sum(int(c) for c in ws) + 3, loop_bounds=[OPTABLE])
+                       stubs=UNI, cover_group="c03_text", cbmc_unwind=sum(int(c) for c in ws) + 3, loop_bounds=[OPTABLE],
+                       native_enum=[CANDS[c] for c in sym])
 
     for ws in (["1", "2"] if tier == "quick" else ["1", "2", "3", "4"]):
         hs.append(text_h("c03_text_w" + ws, ws, "every text of ONE character of UTF-8 width %s (any Unicode scalar value of that width)" % ws))
@@ -92,7 +100,7 @@ def harnesses(tier):
                 continue
             hs.append(text_h("c03_text_" + key, ws,
                              "every text %r + %d further character(s) of UTF-8 widths %s, each any Unicode scalar value of that width"
-                             % (ch, len(ws) - 1, "+".join(ws[1:]))))
+                             % (ch, len(ws) - 1, "+".join(ws[1:])), fixed_first=True))
     if tier == "thorough":
         for ws in ["11", "12", "13", "14", "21", "22", "31", "41", "111"]:
             hs.append(text_h("c03_text_w" + ws, ws, "every text of %d characters with UTF-8 widths %s, each any Unicode scalar value "
@@ -100,13 +108,38 @@ def harnesses(tier):
     consts = ["hex_0", "hex_16", "dec_any_3"]
     if tier == "thorough":
         consts += ["hex_any_3", "oct_any_3", "hex_1", "dec_1", "oct_0", "hex_15", "hex_16u", "hex_17", "dec_18", "dec_19", "dec_20", "oct_21", "oct_22"]
+    def const_cases(c):
+        """Explicit inputs for the native enumeration replay: the boundary constants of the radix with that many digits."""
+        radix = {"hex": 16, "dec": 10, "oct": 8}[c.split("_")[0]]
+        nd = int(c.split("_")[-1].rstrip("u"))
+        digs = "0123456789abcdef"
+        def to_radix(v):
+            s = ""
+            while v:
+                s = digs[v % radix] + s
+                v //= radix
+            return s or "0"
+        words = set()
+        for v in (2**63 - 1, 2**63, 2**63 + 1, 2**64 - 1, 2**64, 2**62, 1, 0, radix**nd - 1 if nd else 0, radix**(nd - 1) if nd else 0):
+            s = to_radix(v)
+            if len(s) <= nd:
+                words.add(s.rjust(nd, "0"))
+                words.add(s.upper().rjust(nd, "0"))
+        if "any" in c:
+            words |= {"0x1", "0X1", "x10", "1z2", "g12", "1_2", "12a", "09a", "089", "1e3"}
+        out = []
+        for wd in sorted(words):
+            if len(wd) == nd:
+                out.append([(ord(ch), 1) for ch in wd])
+        return out
+
     for c in consts:
         hs.append(Harness("c03_const_" + c, "constant with prefix/radix %s and %s symbolic digit characters"
                           % (c.split("_")[0], c.split("_")[-1]), FT + ["core::num::<impl i64>::from_str_radix"],
                           "a constant denotes its exact mathematical value, or InvalidNumericConstant when malformed or not "
                           "representable in i64 (never a wrapped value)", timeout=2400, mem_gb=12, mod=MT, stubs=UNI,
                           cover_group="c03_const",
-                          cbmc_unwind=int(c.split("_")[-1].rstrip("u")) + 6, loop_bounds=[OPTABLE]))
+                          cbmc_unwind=int(c.split("_")[-1].rstrip("u")) + 6, loop_bounds=[OPTABLE], native_cases=const_cases(c)))
     return hs
 
 
